@@ -5,6 +5,8 @@ package main
 
 import (
 	"fmt"
+	"path/filepath"
+	"sort"
 	"strings"
 
 	"xv/kvmem"
@@ -116,12 +118,27 @@ func main() {
 		}
 		return
 	}
+	// minimised past failures and hand-written corner cases run first
+	if files, _ := filepath.Glob(filepath.Join("corpus", prop, "*.ops")); len(files) > 0 {
+		sort.Strings(files)
+		for _, f := range files {
+			var canon []string
+			for _, l := range xvlib.ReadLines(f) {
+				a := ex.exec(l)
+				out.Emit(l, cmpAns(l, a))
+				canon = append(canon, l)
+			}
+			out.Case(strings.Join(canon, "\n"), true)
+			out.Count("corpus")
+			kvmem.Drop(args.Scratch)
+		}
+	}
 	if prop == "C04" {
 		n := xvlib.EnvInt("XV_CASES", 0)
 		if n == 0 {
-			n = 150
+			n = 400
 			if args.Tier == "thorough" {
-				n = 4000
+				n = 6000
 			}
 		}
 		g := &Gen{e: ex, r: xvlib.NewRng(args.Seed*1000003 + 404), out: out}
@@ -142,9 +159,12 @@ func main() {
 	// corpus first
 	n := xvlib.EnvInt("XV_CASES", 0)
 	if n == 0 {
-		n = 60
+		n = 300
 		if args.Tier == "thorough" {
-			n = 1200
+			n = 4000
+		}
+		if prop == "C06" {
+			n /= 4
 		}
 	}
 	g := &Gen{e: ex, r: xvlib.NewRng(args.Seed*1000003 + uint64(len(prop))*7 + uint64(prop[2])), out: out}
